@@ -568,7 +568,7 @@ func ruleSequences(c *Ctx, p *Program, r *E1) {
 			if st.canon(save.Row[sp.scopeField]) != scope {
 				fail("sequence saved under scope " + st.canon(save.Row[sp.scopeField]) + " but read under " + scope)
 			}
-			if st.canon(save.Row["NextSequence"]) != "("+s+" + 1)" {
+			if got := st.canon(save.Row["NextSequence"]); got != "("+s+" + 1)" && !(s == "1" && got == "2") {
 				fail("saved NextSequence is " + st.canon(save.Row["NextSequence"]) + ", required (" + s + " + 1)")
 			}
 			if save.OpKind != "save" && save.OpKind != "update" && save.OpKind != "insert" {
@@ -673,7 +673,7 @@ func ruleUniqueAndFK(c *Ctx, m *Model, r *E1) {
 		switch s.Table.Name {
 		case "Class", "Project", "Batch", "Basket":
 			if s.Kind == "save" {
-				c.Violate("C14.UNIQ", funcKey(s.Fn)+"#"+s.Table.Name+".Save", p.Pos(s.Call.Pos()), "identified entity written with Save: an id collision would overwrite instead of failing", nil)
+				c.Violate("C14.UNIQ", funcKey(s.Fn)+"#"+s.Table.Name+".Save", p.Pos(s.At()), "identified entity written with Save: an id collision would overwrite instead of failing", nil)
 			}
 		case "ClassSequence", "ProjectSequence", "BatchSequence":
 			fk := funcKey(s.Fn)
@@ -683,13 +683,13 @@ func ruleUniqueAndFK(c *Ctx, m *Model, r *E1) {
 			if !only {
 				why = ": reached without passing through it by " + chain
 			}
-			c.Check(only, "C14.SEQ", fk+"#"+s.Table.Name+"."+s.Method, p.Pos(s.Call.Pos()), s.Table.Name+" is written only on call chains through the "+gate+" handler (whose read-use-save+1 discipline is checked above)"+why)
+			c.Check(only, "C14.SEQ", fk+"#"+s.Table.Name+"."+s.Method, p.Pos(s.At()), s.Table.Name+" is written only on call chains through the "+gate+" handler (whose read-use-save+1 discipline is checked above)"+why)
 		}
 		if s.Kind == "delete" || s.Kind == "deleterange" {
 			deleted[s.Table.Name] = true
 			switch s.Table.Name {
 			case "CreditType", "Class", "Project", "Batch", "Market", "Basket":
-				c.Violate("C14.FK", funcKey(s.Fn)+"#"+s.Table.Name+"."+s.Method, p.Pos(s.Call.Pos()), "delete of a referenced table: stored references to "+s.Table.Name+" rows would dangle", nil)
+				c.Violate("C14.FK", funcKey(s.Fn)+"#"+s.Table.Name+"."+s.Method, p.Pos(s.At()), "delete of a referenced table: stored references to "+s.Table.Name+" rows would dangle", nil)
 			}
 		}
 	}
